@@ -4,11 +4,15 @@
 // descriptions, compared with golib's Equals / CompareTo, and the RESULTS are checked against
 // laws only (no model of what the answer should be):
 //
-//	totality                 no Equals / CompareTo call panics
+//	totality                 no Equals / CompareTo call panics — or fails to return (guard.go: every call runs
+//	                         under a termination guard; key suffix :never-returns), with the same object on
+//	                         both sides included (per container type and size class)
 //	Equals-reflexive         v.Equals(v)
 //	Equals-symmetric         a.Equals(b) == b.Equals(a)
 //	Equals-transitive        a=b ∧ b=c ⇒ a=c                       (triples)
-//	Equals-decoded-copy      v.Equals(ReadValue(WriteValue(v)))
+//	Equals-decoded-copy      v.Equals(ReadValue(WriteValue(v))); a value whose own encoding cannot be decoded has
+//	                         no copy to be equal to (key suffix :own-encoding-not-decodable). alias.go: containers
+//	                         of minimal-size elements ending the input; payload slices sharing backing arrays
 //	CompareTo-antisymmetric  sign(a.cmp(b)) == −sign(b.cmp(a))     (same type; a.cmp(a)==0 included)
 //	CompareTo-transitive     a≤b ∧ b≤c ⇒ a≤c                       (triples)
 //	CompareTo-zero-iff-equal scalars: a.cmp(b)==0 ⇔ a.Equals(b)
@@ -1004,6 +1008,30 @@ func main() {
 		}
 		for k, v := range m.shared {
 			c.Count("shared_backing_array_"+k, v)
+		}
+		// same-object reflexivity per container type and size class; minimal-element containers
+		// through the decoded-copy law; shared backing arrays per slice-carrying type and kind
+		sc := int64(c.N(1, 20))
+		for _, code := range containerCodes {
+			for _, cl := range []string{"2", "3-5", "6+"} {
+				k := typeName[code] + "/" + cl
+				c.Floor("same_object_compared_"+k, 10*sc, m.sameObj[k])
+			}
+		}
+		c.Floor("minimal_run_of_1-5", 10*sc, m.minimal["run-of-1-5"])
+		c.Floor("minimal_run_of_6-50", 8*sc, m.minimal["run-of-6-50"])
+		c.Floor("minimal_run_of_51-5000", 2*sc, m.minimal["run-of-51-5000"])
+		for _, v := range []string{"list-of-nulls", "x-then-nulls", "list-of-minimal-elements", "map-of-minimal-elements", "map-ending-in-list-of-nulls", "nested-ending-in-list-of-nulls"} {
+			c.Floor("minimal_"+v, 3*sc, m.minimal[v])
+		}
+		c.Floor("own_encodings_decoded", int64(c.N(200000, 5000000))/10/sh, c.Counter("own_encodings_decoded"))
+		for _, code := range sliceCodes {
+			t := typeName[code]
+			c.Floor("shared_backing_array_"+t+"/same-window", 20*sc, m.shared[t+"/same-window"])
+			c.Floor("shared_backing_array_"+t+"/overlapping-windows", 1*sc, m.shared[t+"/overlapping-windows"])
+			if code != cIP4 {
+				c.Floor("shared_backing_array_"+t+"/same-start-different-length", 4*sc, m.shared[t+"/same-start-different-length"]+m.shared[t+"/append-within-capacity"])
+			}
 		}
 		c.Floor("decoded_copy_mixed_container_bools", int64(c.N(300000, 7000000))/2000/sh, m.mixedSeen[cBool])
 	}
